@@ -48,6 +48,10 @@ CLAIMED = {
             "Exploration with an exhaustive calendar grid (8 years x every month boundary x 2 times x 8+ offsets x 13 fraction shapes x 5 precisions, ~50 000 cases) plus random timestamps, an enumerated list of impossible literals/binary tuples, and 10-30 digit fractions in both formats.",
             "Local year 1..9999. Ties within 0.001 ns of .5 are accepted either way in the sub-nanosecond check (the text path rounds through float64).",
             "DESIGN.md section 5, C15"),
+    "C06": ("fuzzing / property-based testing with pgregory.net/rapid over grammar-aware hostile inputs + exhaustive enumeration of all inputs of length <= 2; validity oracle observed from outside an isolated worker process (recovered panics, process death, allocation and progress counters, wall-clock with solo re-run)",
+            "Exploration with an exhaustive sub-grid: every byte string of length <= 2, bare and behind a version marker, under full traversal and Decoder.Decode (263 000 runs); every extreme-field token (lengths / IDs / exponents / years / offsets from 2^20 to 2^64-1) x 9 container wrappers x 5 programs; plus 24 000 generated (program, input) pairs per quick run: hostile symbol-table structs (typed nulls, huge / negative ints, wrong types in every slot), extreme text, the C07 edit catalogue, splices, random bytes; programs = full traversal, random navigation issued regardless of state, Decoder.Decode, Unmarshal into 32 target types, Decoder.DecodeTo.",
+            "Inputs <= 64 KiB (nesting depth bounded by that). The allocation bound (1 MiB + 64 x len) is calibrated on valid documents, whose maximum is reported in evidence. A hang or death must reproduce on a solo re-run in a fresh process to count. Trusts the worker protocol, rapid, Go's runtime/metrics.",
+            "DESIGN.md section 5, C06; section 11"),
     "C07": (PBT + "; differential oracle: an edited document is a case only if the independent strict reference decoder rejects it for a reason the property lists; then validity (Err non-nil, permanent) is checked on ion-go; exhaustive application of an edit catalogue at every position of ~60 base documents",
             "Exploration with an exhaustive sub-grid: ~60 small base documents (every type, both formats) x the whole edit catalogue (truncation / deletion / duplication at every offset, every byte replaced by a hostile alphabet incl. all L nibbles and calendar values, insertion of 27 malformed tokens at every text position) = ~10^5 reference-rejected documents per quick run, plus 80 000 random edits of larger generated documents; each must end a full traversal with Err() != nil, then 5 more Next() calls return false with the same Err().",
             "Not used as witnesses (counted as discarded): edits that leave the document valid, rejections the reference marks undecided (DESIGN 9.4), symbol-ID / import errors (C10), unsorted sorted-structs, malformed content *inside* a top-level symbol-table struct other than truncation (a reader may skip ignored fields unvalidated), binary offsets beyond 23:59, local year 0/10000. Trusts the reference decoders.",
